@@ -208,6 +208,16 @@ impl Parser {
             ));
         }
 
+        if is_bigint_literal(name) {
+            // in an expression `B1` is lexed as the bigint literal 1, never as a name:
+            // a variable of that name could be written but not read.
+            bail!(new_err(
+                input.as_span(),
+                &input.user_data().get_source_file_name(),
+                format!("`{name}` is a bigint literal and cannot be used as a name")
+            ));
+        }
+
         let name = name.to_owned();
 
         Ok(Ident {
@@ -217,4 +227,22 @@ impl Parser {
             modify_alias: false,
         })
     }
+}
+
+/// Does `name` have the shape of the grammar's `bigint` rule, `B` followed by an `integer` or a `hex_int`?
+fn is_bigint_literal(name: &str) -> bool {
+    let Some(digits) = name.strip_prefix('B') else {
+        return false;
+    };
+
+    let (digits, is_digit): (&str, fn(&char) -> bool) = match digits.strip_prefix("0x") {
+        Some(hex) => (hex, char::is_ascii_hexdigit),
+        None => (digits, char::is_ascii_digit),
+    };
+
+    // digits, where single underscores may separate two digits
+    !digits.is_empty()
+        && digits
+            .split('_')
+            .all(|group| !group.is_empty() && group.chars().all(|c| is_digit(&c)))
 }
